@@ -73,7 +73,14 @@ def check_add(R, A, B, Xnew):
     try:
         va = V.NgramVectorizer().fit([list(s) for s in A])
         vb = V.NgramVectorizer().fit([list(s) for s in B])
-        vab = va + vb
+        snap = lambda v: (dict(v.column_index_dictionary_), dict(v.column_label_dictionary_), v._train_matrix.toarray().tolist(), list(v._token_frequencies_))
+        sa, sb = snap(va), snap(vb)
+        va + vb           # a first sum: the operands must survive it unchanged ...
+        vab = va + vb     # ... so that a second sum with the same operands is the same model
+        if snap(va) != sa or snap(vb) != sb:
+            R.case(key)
+            R.fail("add/operand-mutated", "a + b modified one of its operands (its dictionaries / training matrix changed)", **case)
+            return
         vc = V.NgramVectorizer().fit([list(s) for s in A + B])
         M1, M2 = vab._train_matrix.toarray(), vc._train_matrix.toarray()
         T1, T2 = vab.transform([list(s) for s in Xnew]).toarray(), vc.transform([list(s) for s in Xnew]).toarray()
